@@ -385,7 +385,7 @@ def layout_variants(text, lg, rnd, nrandom):
             outl.append(pool[(2 * i + 1) % len(pool)])
     variants["comment_lines_token_chars"] = "\n".join(outl)
     variants["one_unbalanced_quote_comment_first"] = '# 3/4" fibre\n' + text
-    for base in ("comments", "blank_and_comment_lines", "spaces1"):
+    for base in ("comments", "blank_and_comment_lines", "spaces1", "comments_exotic_chars", "comments_token_chars", "comment_lines_token_chars"):
         variants[base + "_cr"] = variants[base].replace("\n", "\r")
         variants[base + "_crlf"] = variants[base].replace("\n", "\r\n")
     variants["crlf"] = text.replace("\n", "\r\n")
